@@ -906,6 +906,8 @@ class Expander:
                 r = self._resolve(st.iter, cls, False, stack, generator=True)
                 if r:
                     rep = self._inline_generator(r[1], r[2], caller_names, st)
+            if rep is None and isinstance(st, (ast.With, ast.AsyncWith)):
+                rep = self._with_contextmanager(st, cls)
             if rep is None:
                 rep = _iter_sentinel_loop(st)
             if rep is None:
@@ -929,6 +931,59 @@ class Expander:
                 for case in st.cases:
                     case.body = self._block(case.body, cls, caller_names, stack, changed)
             out.append(st)
+        return out
+
+    def _contextmanager_parts(self, call: ast.AST, cls: Optional[str]):
+        """`self.M()` with M a @contextmanager generator method of the class, without parameters, of the form
+        `pre; try: yield  finally: post` (or `pre; yield; post`) that binds no local: (pre, post, guarded)"""
+        if not (isinstance(call, ast.Call) and not call.args and not call.keywords and isinstance(call.func, ast.Attribute) and isinstance(call.func.value, ast.Name)
+                and call.func.value.id == "self" and cls is not None):
+            return None
+        q = f"{cls}.{call.func.attr}"
+        if q not in self.mod.defs or len(self.mod.defs[q]) != 1 or not isinstance(self.mod.defs[q][0], ast.FunctionDef):
+            return None
+        h = self.mod.defs[q][0]
+        decos = [ast.unparse(d).split(".")[-1] for d in h.decorator_list]
+        if decos != ["contextmanager"] or len(h.args.args) != 1 or h.args.vararg or h.args.kwarg or h.args.kwonlyargs:
+            return None
+        body = list(h.body)
+        if body and isinstance(body[0], ast.Expr) and isinstance(body[0].value, ast.Constant) and isinstance(body[0].value.value, str):
+            body = body[1:]
+        yields = [n for n in ast.walk(h) if isinstance(n, (ast.Yield, ast.YieldFrom))]
+        if len(yields) != 1 or not isinstance(yields[0], ast.Yield) or yields[0].value is not None:
+            return None
+        if any(isinstance(n, ast.Name) and isinstance(n.ctx, ast.Store) for n in ast.walk(h)) or any(isinstance(n, (ast.Return, ast.FunctionDef, ast.Lambda)) for n in ast.walk(h) if n is not h):
+            return None
+
+        def is_yield(st_):
+            return isinstance(st_, ast.Expr) and st_.value is yields[0]
+
+        for k, st_ in enumerate(body):
+            if is_yield(st_):
+                return body[:k], body[k + 1:], False
+            if isinstance(st_, ast.Try) and len(st_.body) == 1 and is_yield(st_.body[0]) and not st_.handlers and not st_.orelse and k == len(body) - 1:
+                return body[:k], list(st_.finalbody), True
+            if any(n is yields[0] for n in ast.walk(st_)):
+                return None
+        return None
+
+    def _with_contextmanager(self, st: ast.AST, cls: Optional[str]) -> Optional[List[ast.stmt]]:
+        """`with self.M(): BODY` for such an M is `pre; try: BODY  finally: post` - what contextlib does with the generator"""
+        if isinstance(st, ast.AsyncWith) or len(st.items) != 1 or st.items[0].optional_vars is not None:
+            return None
+        parts = self._contextmanager_parts(st.items[0].context_expr, cls)
+        if parts is None:
+            return None
+        pre, post, guarded = parts
+        pre, post = copy.deepcopy(pre), copy.deepcopy(post)
+        if guarded:
+            inner: List[ast.stmt] = [ast.Try(body=list(st.body), handlers=[], orelse=[], finalbody=post)]
+        else:
+            inner = list(st.body) + post
+        out = pre + inner
+        for x in out:
+            ast.copy_location(x, st)
+            ast.fix_missing_locations(x)
         return out
 
     def expand(self, qual: str, index: int, fn: ast.AST) -> ast.AST:
@@ -998,6 +1053,8 @@ class Expander:
             return True
         for n in ast.walk(fn):
             if isinstance(n, ast.Expr) and _dict_update_as_stores(n) is not None:
+                return True
+            if isinstance(n, ast.With) and len(n.items) == 1 and self._contextmanager_parts(n.items[0].context_expr, cls) is not None:
                 return True
             if isinstance(n, ast.For) and _iter_sentinel_loop(n) is not None:
                 return True
